@@ -788,14 +788,8 @@ fn explore_one(ctx: &mut Ctx, dir: &std::path::Path, lib: &[MDef], fam: &str, sg
     acc.push(Accepted { sg: sg.clone(), inputs: keep, uses_bang });
 }
 
-pub const EXTRA_TOV: &str = r####"
-impl<T: ToV> ToV for Vec<T> { fn v(self) -> V { V::N(900, self.into_iter().map(|x| x.v()).collect()) } }
-impl<T: ToV> ToV for Option<T> { fn v(self) -> V { match self { Some(x) => V::N(901, vec![x.v()]), None => V::N(902, vec![]) } } }
-impl ToV for () { fn v(self) -> V { V::N(903, vec![]) } }
-impl<A: ToV, B: ToV> ToV for (A, B) { fn v(self) -> V { V::N(904, vec![self.0.v(), self.1.v()]) } }
-impl<A: ToV, B: ToV, C: ToV> ToV for (A, B, C) { fn v(self) -> V { V::N(905, vec![self.0.v(), self.1.v(), self.2.v()]) } }
-impl ToV for lalrpop_util::ErrorRecovery<usize, Tok, String> { fn v(self) -> V { V::N(906, self.dropped_tokens.into_iter().map(|(_, t, _)| V::T(t)).collect()) } }
-"####;
+/// (the container impls of ToV now live in dg::V_PRELUDE)
+pub const EXTRA_TOV: &str = "";
 
 fn compiled(ctx: &mut Ctx, dir: &std::path::Path, lib: &[MDef], items: &[Accepted]) {
     if items.is_empty() {
